@@ -10,6 +10,7 @@ import (
 	"path/filepath"
 	"sort"
 	"strings"
+	"sync"
 
 	"golang.org/x/tools/go/packages"
 	"golang.org/x/tools/go/ssa"
@@ -251,7 +252,11 @@ func (sf *SpecFile) merge(sub *SpecFile, prefix string) error {
 }
 
 // typeID gives a stable small integer for a Go type (by its canonical string).
+var typeIDMu sync.Mutex
+
 func (P *Prog) typeID(t types.Type) int {
+	typeIDMu.Lock()
+	defer typeIDMu.Unlock()
 	s := types.TypeString(t, nil)
 	if id, ok := P.typeIDs[s]; ok {
 		return id
